@@ -145,6 +145,18 @@ CLAIMS = {
             "DESIGN.md section 9 C13",
             TB + "; well-formed data lines; at most one gap in the L1 theorem; import state machine bounded only",
             "deductive: AST->VC with a loop contract over abstract line lists and BigConcat payloads, z3; bounded monitor"),
+    "C14": ("proof",
+            "raise-set obligations on symbolic inputs: every path of InitEccAuthBlock.unpack (raw of ANY length, decryptor "
+            "present/absent), UpdateAuthBlock/InitCustKeyAuthBlock.unpack (raw of any length and content), "
+            "pfid2_filter_to_str (any length, loop contract) ends in a result or FormatError/ValueError; the reader's "
+            "rejection paths and the termination variants of its three loops are obligations of C05/C01; the only global "
+            "stores of bec2format are in register_* (AST scan, ground).  Unstructured input, termination on it and the "
+            "vendored ECC library are covered by the bounded mutation corpus through all five entry points with the decryptor "
+            "sets none / public-only / private / wrong key under a time limit",
+            "DESIGN.md section 9 C14",
+            TB + "; ECC plug-in by contract in the L1 part; Bec2File.unpack_auth_blocks on a symbolic TLV is proved in the "
+                 "thorough tier only (path count); termination on unstructured input by time limit",
+            "deductive: AST->VC raise-set analysis (every path Return/Raise(type)), z3; bounded mutation corpus underneath"),
 }
 
 NA_DEFAULT = "check not built yet (construction in progress, see DESIGN.md section 14)"
